@@ -14,6 +14,7 @@
 //	fh <len> <type> <flags> <sid>           frame header written by MFramer, parsed by the reference and vice versa
 //	fhdec <hex>                             MFramer.readFrameHeader on arbitrary bytes vs reference
 //	hdr <dir> <ops…>                        header lists + table size updates encoded by one side, decoded by the other
+//	hdrcut <ops…>                           header blocks decoded while the emit callback switches emitting off mid-block (hdrcut.go)
 //	frames <dir> <frames…>                  frame sequences (padding, priority, CONTINUATION) written by one framer, read by the other
 package c18
 
@@ -44,6 +45,7 @@ func Run(c *hx.Ctx) {
 	runStrings(c)
 	runFrameHeaders(c)
 	runHeaderLists(c)
+	runHdrCuts(c)
 	runFrameSeqs(c)
 	runPeer(c)
 	runPeerNeg(c)
